@@ -369,6 +369,18 @@ def run_c17(ctx):
         v = retgen.gen_value(t, rng, c, force="empty")
         cases.append((t, v, retgen.MODES[(j + ctx.seed) % len(retgen.MODES)], False))
     n += len(with_vec)
+    # string / byte-slice leaves that are *empty* (a value like any other: `Some("")` is not `None`)
+    with_text = [t for t in with_ref if any(x in json.dumps(t) for x in ('"ref_str"', '"ref_bytes"', '"static_str"'))]
+    step = 1 if ctx.tier == "thorough" else 3
+    n_blank = 0
+    for j, t in enumerate(with_text):
+        if (j + ctx.seed) % step:
+            continue
+        c = retgen.Counter()
+        v = retgen.gen_value(t, rng, c, force="blank")
+        cases.append((t, v, retgen.MODES[(j + ctx.seed) % len(retgen.MODES)], False))
+        n_blank += 1
+    n += n_blank
     # zero-sized leaves behind the same containers (marker types): multi-use and single-use paths
     for j, t in enumerate(retgen.ZST_TYPES):
         for mode in ("each", "some"):
